@@ -389,6 +389,9 @@ func summariseReaderParser(c *core.Ctx, fn *ssa.Function, key string) parserSumm
 				if strings.HasPrefix(r, "len(") || strings.HasPrefix(r, "be16(") {
 					continue // pure: what matters is where the value goes (entry.tag=..., make(...))
 				}
+				if cal := x.Call.StaticCallee(); cal != nil && isEntryConstructor(cal) {
+					continue // NewTLV / NewOption: the entry's fields are read through the constructor (structStores)
+				}
 				sum.items = append(sum.items, "call:"+r)
 				if cal := x.Call.StaticCallee(); cal != nil && cal.Name() == "ReadBytes" {
 					reads = append(reads, x)
@@ -619,13 +622,21 @@ func structStores(v ssa.Value) map[string]ssa.Value {
 }
 
 func succKind(b *ssa.BasicBlock) string {
-	last := b.Instrs[len(b.Instrs)-1]
-	switch x := last.(type) {
-	case *ssa.Return:
-		if len(x.Results) > 0 {
-			return "return(" + retRole(x.Results[0]) + ")"
+	// `break` out of the loop into a block that only returns is the same as returning there: unconditional jumps are
+	// followed (the calls on the way are items of their own)
+	for i := 0; i < 8; i++ {
+		last := b.Instrs[len(b.Instrs)-1]
+		switch x := last.(type) {
+		case *ssa.Return:
+			if len(x.Results) > 0 {
+				return "return(" + retRole(x.Results[0]) + ")"
+			}
+			return "return"
+		case *ssa.Jump:
+			b = b.Succs[0]
+			continue
 		}
-		return "return"
+		break
 	}
 	return "go-on"
 }
@@ -895,14 +906,10 @@ func serialRule(c *core.Ctx, rel, typ, meth, entryMeth string) {
 					// append(acc, entry.Bytes()...)
 					if call, ok := x.Call.Args[1].(*ssa.Call); ok {
 						if cal := call.Call.StaticCallee(); cal != nil && cal.Name() == entryMeth {
-							// the entry must be the range value: Extract #2 of Next(range)
-							if ex, ok := call.Call.Args[0].(*ssa.Extract); ok && ex.Index == 2 {
-								if nx, ok := ex.Tuple.(*ssa.Next); ok {
-									if rg, ok := nx.Iter.(*ssa.Range); ok {
-										entryCalls++
-										emitRange = rg
-									}
-								}
+							// the entry must be the range value: Extract #2 of Next(range), or the map indexed by the range key
+							if rg := rangedEntry(call.Call.Args[0]); rg != nil {
+								entryCalls++
+								emitRange = rg
 							}
 						}
 					}
@@ -912,14 +919,10 @@ func serialRule(c *core.Ctx, rel, typ, meth, entryMeth string) {
 				if cal := x.Call.StaticCallee(); cal != nil && cal.Pkg != nil && cal.Pkg.Pkg.Path() == "bytes" && cal.Name() == "Write" && len(x.Call.Args) == 2 {
 					if call, ok := x.Call.Args[1].(*ssa.Call); ok {
 						if ec := call.Call.StaticCallee(); ec != nil && ec.Name() == entryMeth {
-							if ex, ok := call.Call.Args[0].(*ssa.Extract); ok && ex.Index == 2 {
-								if nx, ok := ex.Tuple.(*ssa.Next); ok {
-									if rg, ok := nx.Iter.(*ssa.Range); ok {
-										entryCalls++
-										emitRange = rg
-										bufWrite = x
-									}
-								}
+							if rg := rangedEntry(call.Call.Args[0]); rg != nil {
+								entryCalls++
+								emitRange = rg
+								bufWrite = x
 							}
 						}
 					}
@@ -1007,8 +1010,15 @@ func serialRule(c *core.Ctx, rel, typ, meth, entryMeth string) {
 							bad = "the accumulator does not start empty"
 						}
 					case *ssa.Slice:
-						// make([]byte, 0) with a constant capacity compiles to new [N]byte; slice [:0]
-						if k, isK := constInt(x.High); !isK || k != 0 {
+						// make([]byte, 0) with a constant capacity compiles to new [N]byte; slice [:0]. []byte{} is a slice of a
+						// zero-length array
+						zeroArr := false
+						if al, isAl := x.X.(*ssa.Alloc); isAl {
+							if arr, isArr := al.Type().Underlying().(*types.Pointer).Elem().Underlying().(*types.Array); isArr && arr.Len() == 0 {
+								zeroArr = true
+							}
+						}
+						if k, isK := constInt(x.High); !zeroArr && (!isK || k != 0) {
 							bad = "the accumulator does not start empty: octets precede the first entry"
 						}
 					default:
@@ -1470,4 +1480,69 @@ func sliceOffsetIn(v ssa.Value, base ssa.Value) (int64, bool) {
 		v = sl.X
 	}
 	return 0, false
+}
+
+// isEntryConstructor: a module function that only builds and returns one struct value from its parameters (NewTLV,
+// NewOption): single block, no call with an effect, one struct result.
+func isEntryConstructor(fn *ssa.Function) bool {
+	if fn.Pkg == nil || !load.InModule(fn.Pkg.Pkg) || len(fn.Blocks) != 1 || fn.Signature.Results().Len() != 1 {
+		return false
+	}
+	if _, ok := fn.Signature.Results().At(0).Type().Underlying().(*types.Struct); !ok {
+		return false
+	}
+	for _, ins := range fn.Blocks[0].Instrs {
+		switch x := ins.(type) {
+		case *ssa.Call:
+			if bi, ok := x.Call.Value.(*ssa.Builtin); !ok || (bi.Name() != "len" && bi.Name() != "cap") {
+				return false
+			}
+		case *ssa.MapUpdate, *ssa.Send, *ssa.Go, *ssa.Defer, *ssa.Panic:
+			return false
+		case *ssa.Store:
+			if _, isAlloc := rootAlloc(x.Addr); !isAlloc {
+				return false
+			}
+		}
+	}
+	return true
+}
+
+func rootAlloc(v ssa.Value) (*ssa.Alloc, bool) {
+	for i := 0; i < 6; i++ {
+		switch x := v.(type) {
+		case *ssa.Alloc:
+			return x, true
+		case *ssa.FieldAddr:
+			v = x.X
+		case *ssa.IndexAddr:
+			v = x.X
+		default:
+			return nil, false
+		}
+	}
+	return nil, false
+}
+
+// rangedEntry: v is the entry of the current iteration of a range over a map - the range value itself (Extract #2 of
+// Next), or the ranged map indexed by the range key (`for k := range m { m[k] ... }`); the Range, else nil.
+func rangedEntry(v ssa.Value) *ssa.Range {
+	if ex, ok := v.(*ssa.Extract); ok && ex.Index == 2 {
+		if nx, ok := ex.Tuple.(*ssa.Next); ok {
+			if rg, ok := nx.Iter.(*ssa.Range); ok {
+				return rg
+			}
+		}
+		return nil
+	}
+	if lk, ok := v.(*ssa.Lookup); ok && !lk.CommaOk {
+		if ex, ok := lk.Index.(*ssa.Extract); ok && ex.Index == 1 {
+			if nx, ok := ex.Tuple.(*ssa.Next); ok {
+				if rg, ok := nx.Iter.(*ssa.Range); ok && rg.X == lk.X {
+					return rg
+				}
+			}
+		}
+	}
+	return nil
 }
